@@ -545,10 +545,9 @@ impl<'a> Gen<'a> {
             }
             steps.push(st);
         }
-        // a call the type does not offer.  Classes 0..=5: FORMAT.md, the
-        // harness and the model all say `invalid`.  Classes 6..=8 (only with
-        // --disputed 1): Rust does not offer them (FORMAT.md: invalid) but the
-        // model's lazy rule (Iter.v: ad_step / adaptor_len) accepts them.
+        // a call the type does not offer: the whole op is `invalid`.
+        // Classes 6..=8 were once accepted by the model's lazy rule; they can
+        // be switched off with --disputed 0.
         if self.rng.pct(INVALID_SCRIPT_PCT) {
             let classes = if self.p.disputed { 9 } else { 6 };
             let has_n = steps.iter().any(|s| s.starts_with('n'));
@@ -1027,7 +1026,7 @@ fn gen_random(args: &[String]) -> Result<(), String> {
     if hashmode > 3 {
         return Err("--hashmode is 0..3".into());
     }
-    let disputed = f.get("disputed", 0u32)? != 0;
+    let disputed = f.get("disputed", 1u32)? != 0;
     // the per-history PRNG depends on (seed, id) only, and --hashmode is only
     // written into the H header: accepted for compatibility, nothing to switch
     let _fixseed = f.get("fixseed", 1u32)?;
